@@ -15,13 +15,69 @@ pub enum EpochServiceError { NotYetInitialized }
 pub uninterp spec fn initializer_key(i: &ProtocolInitializer) -> KeyBytes;
 pub uninterp spec fn key_eq(a: &KeyBytes, b: &KeyBytes) -> bool;
 
+#[verifier::external_body] #[derive(Clone, Copy)] pub struct SupportedEra { _p: core::marker::PhantomData<u8> }
+#[verifier::external_body] pub struct ProtocolParameters { _p: core::marker::PhantomData<u8> }
+#[verifier::external_body] pub struct DiscriminantSet { _p: core::marker::PhantomData<u8> }   // BTreeSet<SignedEntityTypeDiscriminants>
+#[verifier::external_body] pub struct TxConfig { _p: core::marker::PhantomData<u8> }          // Option<CardanoTransactionsSigningConfig>
+#[verifier::external_body] pub struct BlkConfig { _p: core::marker::PhantomData<u8> }         // Option<CardanoBlocksTransactionsSigningConfig>
+#[verifier::external_body] pub struct SignerWithStake { _p: core::marker::PhantomData<u8> }
+impl Clone for ProtocolParameters { #[verifier::external_body] fn clone(&self) -> (r: Self) ensures r == *self { unimplemented!() } }
+impl Clone for DiscriminantSet { #[verifier::external_body] fn clone(&self) -> (r: Self) ensures r == *self { unimplemented!() } }
+impl Clone for TxConfig { #[verifier::external_body] fn clone(&self) -> (r: Self) ensures r == *self { unimplemented!() } }
+impl Clone for BlkConfig { #[verifier::external_body] fn clone(&self) -> (r: Self) ensures r == *self { unimplemented!() } }
+pub struct SignedEntityTypesConfig { pub cardano_transactions: TxConfig, pub cardano_blocks_transactions: BlkConfig }
+pub struct MithrilNetworkConfigurationForEpoch {
+    pub protocol_parameters: ProtocolParameters,
+    pub enabled_signed_entity_types: DiscriminantSet,
+    pub signed_entity_types_config: SignedEntityTypesConfig,
+}
+pub struct MithrilNetworkConfiguration {
+    pub configuration_for_aggregation: MithrilNetworkConfigurationForEpoch,
+    pub configuration_for_registration: MithrilNetworkConfigurationForEpoch,
+}
+
 pub struct EpochData {
+    pub mithril_era: SupportedEra,
     pub epoch: Epoch,
+    pub registration_protocol_parameters: ProtocolParameters,
     pub protocol_initializer: Option<ProtocolInitializer>,
     pub current_signers: Vec<Signer>,
     pub next_signers: Vec<Signer>,
+    pub allowed_discriminants: DiscriminantSet,
+    pub cardano_transactions_signing_config: TxConfig,
+    pub cardano_blocks_transactions_signing_config: BlkConfig,
 }
-pub struct MithrilEpochService { pub epoch_data: Option<EpochData> }
+
+// the signer's stores (async trait objects): contracts over uninterpreted functions of their content
+#[verifier::external_body] pub struct ProtocolInitializerStore { _p: core::marker::PhantomData<u8> }
+#[verifier::external_body] pub struct EraChecker { _p: core::marker::PhantomData<u8> }
+/// the key material (protocol initializer) the signer saved under this epoch
+pub uninterp spec fn stored_initializer(s: &ProtocolInitializerStore, e: Epoch) -> Option<ProtocolInitializer>;
+impl ProtocolInitializerStore {
+    #[verifier::external_body]
+    pub fn get_protocol_initializer(&self, e: Epoch) -> (r: Result<Option<ProtocolInitializer>, EpochServiceError>)
+        ensures r is Ok ==> r->Ok_0 == stored_initializer(self, e)
+    { unimplemented!() }
+}
+impl EraChecker { #[verifier::external_body] pub fn current_era(&self) -> SupportedEra { unimplemented!() } }
+// Epoch offsets: the contracts proved on the real functions by this property's Kani unit (c20_epoch.rs)
+impl Epoch {
+    #[verifier::external_body]
+    pub fn offset_to_signer_retrieval_epoch(&self) -> (r: Result<Epoch, EpochServiceError>)
+        ensures (r is Ok) == (self.0 >= 1), r is Ok ==> r->Ok_0.0 == self.0 - 1
+    { unimplemented!() }
+    #[verifier::external_body]
+    pub fn offset_to_next_signer_retrieval_epoch(&self) -> (r: Epoch) ensures r.0 == self.0 { unimplemented!() }
+}
+/// the signers with the stakes the signer's stake store holds for this epoch (associate_signers_with_stake: a loop over a
+/// HashMap lookup; contract only)
+pub uninterp spec fn with_stakes_of(e: Epoch, signers: Seq<Signer>) -> Seq<SignerWithStake>;
+
+pub struct MithrilEpochService {
+    pub epoch_data: Option<EpochData>,
+    pub protocol_initializer_store: ProtocolInitializerStore,
+    pub era_checker: EraChecker,
+}
 
 /// the party is listed among the current signers with exactly the initializer's verification key
 pub open spec fn listed_with_key(signers: Seq<Signer>, party_id: Seq<char>, i: &ProtocolInitializer) -> bool {
@@ -34,6 +90,47 @@ fn any_signer_with(signers: &Vec<Signer>, party_id: &PartyId, i: &ProtocolInitia
 { unimplemented!() }
 
 impl MithrilEpochService {
+    #[verifier::external_body]
+    fn associate_signers_with_stake(&self, epoch: Epoch, signers: &Vec<Signer>) -> (r: Result<Vec<SignerWithStake>, EpochServiceError>)
+        ensures r is Ok ==> r->Ok_0@ == with_stakes_of(epoch, signers@)
+    { unimplemented!() }
+
+    //@extract file=mithril-signer/src/services/epoch_service.rs fn=inform_epoch_settings within="impl EpochService for MithrilEpochService"
+    //@ rewrite /async fn/ => /fn/
+    //@ rewrite /\.await/ => //
+    //@ rewrite /StdResult<\(\)>/ => /Result<(), EpochServiceError>/
+    //@ rewrite? /(?s)debug!\(.*?\);[ \t]*\n/ => //
+    //@ spec ensures ret is Ok ==> ({
+    //@ spec     let d = final(self).epoch_data;
+    //@ spec     &&& aggregator_signer_registration_epoch.0 >= 1 && d is Some && d->Some_0.epoch == aggregator_signer_registration_epoch
+    //@ spec     // the key material in force for epoch e is what the signer saved under the signer-retrieval epoch e - 1
+    //@ spec     &&& d->Some_0.protocol_initializer == stored_initializer(&old(self).protocol_initializer_store, Epoch((aggregator_signer_registration_epoch.0 - 1) as u64))
+    //@ spec     &&& d->Some_0.current_signers == current_signers && d->Some_0.next_signers == next_signers
+    //@ spec     &&& d->Some_0.registration_protocol_parameters == mithril_network_configuration.configuration_for_registration.protocol_parameters
+    //@ spec }),
+    //@end
+
+    //@extract file=mithril-signer/src/services/epoch_service.rs fn=current_signers_with_stake within="impl EpochService for MithrilEpochService"
+    //@ rewrite /async fn/ => /fn/
+    //@ rewrite /\.await/ => //
+    //@ rewrite /StdResult<Vec<SignerWithStake>>/ => /Result<Vec<SignerWithStake>, EpochServiceError>/
+    //@ spec ensures ret is Ok ==> self.epoch_data is Some && self.epoch_data->Some_0.epoch.0 >= 1
+    //@ spec     && ret->Ok_0@ == with_stakes_of(Epoch((self.epoch_data->Some_0.epoch.0 - 1) as u64), self.epoch_data->Some_0.current_signers@)
+    //@end
+
+    //@extract file=mithril-signer/src/services/epoch_service.rs fn=next_signers_with_stake within="impl EpochService for MithrilEpochService"
+    //@ rewrite /async fn/ => /fn/
+    //@ rewrite /\.await/ => //
+    //@ rewrite /StdResult<Vec<SignerWithStake>>/ => /Result<Vec<SignerWithStake>, EpochServiceError>/
+    //@ spec ensures ret is Ok ==> self.epoch_data is Some
+    //@ spec     && ret->Ok_0@ == with_stakes_of(self.epoch_data->Some_0.epoch, self.epoch_data->Some_0.next_signers@)
+    //@end
+
+    //@extract file=mithril-signer/src/services/epoch_service.rs fn=next_signers within="impl EpochService for MithrilEpochService"
+    //@ rewrite /StdResult<&Vec<Signer>>/ => /Result<&Vec<Signer>, EpochServiceError>/
+    //@ spec ensures ret is Ok ==> self.epoch_data is Some && *ret->Ok_0 == self.epoch_data->Some_0.next_signers
+    //@end
+
     //@extract file=mithril-signer/src/services/epoch_service.rs fn=unwrap_data within="impl MithrilEpochService"
     //@ spec ensures ret is Ok ==> self.epoch_data is Some && *ret->Ok_0 == self.epoch_data->Some_0
     //@end
